@@ -90,8 +90,16 @@ func nearWitness(pk, cc, attrs []byte, diff string) (npk, ncc, nat []byte) {
 	switch diff {
 	case "same":
 	case "attr-last":
+		if len(nat) == 0 {
+			nat = []byte{0xff}
+			break
+		}
 		nat[len(nat)-1] ^= 0xff
 	case "attr-last2":
+		if len(nat) == 0 {
+			nat = []byte{0x0f}
+			break
+		}
 		nat[len(nat)-1] ^= 0x0f
 		if len(nat) > 1 {
 			nat[len(nat)-2] ^= 0xf0
@@ -101,9 +109,18 @@ func nearWitness(pk, cc, attrs []byte, diff string) (npk, ncc, nat []byte) {
 	case "attr-empty":
 		nat = nil
 	case "cc-last":
-		ncc[31] ^= 0x01
+		// the chain code may already have been cut short by an earlier perturbation of the same case
+		if len(ncc) == 0 {
+			ncc = []byte{0x01}
+			break
+		}
+		ncc[len(ncc)-1] ^= 0x01
 	case "pk-last":
-		npk[31] ^= 0x01
+		if len(npk) == 0 {
+			npk = []byte{0x01}
+			break
+		}
+		npk[len(npk)-1] ^= 0x01
 	default:
 		panic("harness: unknown witness difference " + diff)
 	}
